@@ -142,6 +142,9 @@ func (e *Engine) registerIntrinsics() {
 		})
 		reg(vpk+".Assume", func(e *Engine, st *State, args []Value, depth int) []Outcome {
 			c := args[0].(*term.Term)
+			if c != term.True {
+				e.restrictSeq++
+			}
 			st.assume(c)
 			if st.dead() {
 				return nil
@@ -232,6 +235,9 @@ func (e *Engine) registerIntrinsics() {
 			}
 			st.obs = append(st.obs[:len(st.obs):len(st.obs)], Observation{strArg(args[0]), mkStr(bs)})
 			return ret(st, nil)
+		})
+		reg(vpk+".IsConcrete", func(e *Engine, st *State, args []Value, depth int) []Outcome {
+			return ret(st, term.Bool(args[0].(*term.Term).IsConst()))
 		})
 		reg(vpk+".Conformance", func(e *Engine, st *State, args []Value, depth int) []Outcome {
 			return ret(st, term.Bool(e.Concrete != nil && e.Concrete.Random))
